@@ -302,10 +302,15 @@ def sim_fault(ctx, batch, sc, fault, serial, argv, names, chunks, cores, chooser
     cause = "reader-fault" if m.reader_fault else "worker-fault" if m.faults else "no-fault"
     ctx.count(f"sim:{outcome}:{cause}")
     ctx.count(f"sim:workers:{cores}")
+    if r.status == -1:
+        ctx.count("sim:uncaught-exception-traceback:" + (r.exc or "?").split(":")[0])
     if r.status != 0:
         ctx.count(f"sim:written-chunks-before-failure:{min(ev.k, 3)}{'+' if ev.k >= 3 else ''}")
         ctx.nontriv(hashlib.sha1((f"{cores} {ev.line}").encode()).hexdigest()[:16])
     return r, ev
+
+
+_sampled = set()
 
 
 def simulate(ctx, sc, faults, schedules, workers=(2, 3)):
@@ -321,8 +326,9 @@ def simulate(ctx, sc, faults, schedules, workers=(2, 3)):
             for _ in range(schedules):
                 fine = rng.random() < 0.8
                 r, ev = sim_fault(ctx, batch, sc, fault, serial, argv, names, chunks, cores, fakemp.RandomChooser(rng.getrandbits(32)), fine)
-        if ev is not None and not ev.handshake and r.status != 0:
-            ctx.sample(dict(scenario=sc.name, fault=fault["desc"], error=(r.stderr.strip().splitlines() or [r.exc])[-1][:160], trace=ev.line), cap=6)
+        if ev is not None and not ev.handshake and r.status != 0 and (sc.name, fault["kind"]) not in _sampled:
+            _sampled.add((sc.name, fault["kind"]))
+            ctx.sample(dict(scenario=sc.name, fault=fault["desc"], error=(r.stderr.strip().splitlines() or [r.exc])[-1][:160], trace=ev.line), cap=8)
     return batch.flush()
 
 
@@ -479,8 +485,9 @@ def run(ctx):
         systematic(ctx, single, f_mid, 3, 60)
         f_r = [f for f in pair_faults(paired, p1, p2) if f["kind"] == "short-r2"][1]
         systematic(ctx, paired, f_r, 2, 60)
-        f_gz = list(gz_faults(single, offsets=[clen // 2]))[0]
-        systematic(ctx, single, f_gz, 2, 60)
+        big = scs["gzbig"]
+        blen = len(gzip.compress(big.inputs["in.fastq"].encode(), mtime=0))
+        systematic(ctx, big, list(gz_faults(big, offsets=[blen // 2]))[0], 2, 60)
 
     # real processes
     jobs = []
